@@ -1193,7 +1193,6 @@ package flags
 //@ pure func nShow(opts []*Option, n int) int = ite(n <= 0, 0, nShow(opts, n-1) + ite(showable(opts[n-1]), 1, 0))
 //@ pure func grpRows(g *Group) int = ite(g.Hidden, 0, nShow(g.options, len(g.options)))
 //@ pure func manRows(root *Group, n int) int = ite(n <= 0, 0, manRows(root, n-1) + grpRows(iterelem(Group.eachGroup, root, n-1, 0)))
-//@ lemma[C16] nShow_nonneg: forall opts []*Option, n int :: unfold(nShow(opts, n)) && (n <= 0 || nShow(opts, n-1) >= 0) ==> nShow(opts, n) >= 0
 
 //@ func (g *Group) showInHelp() (r bool)
 //@   props C16 C04
